@@ -11,7 +11,7 @@ out="/verif/seeded/$id"
 log="/tmp/confirm-$id.log"
 : > "$log"
 base=$(git -C /repo rev-list --max-parents=0 HEAD | tail -1)
-git -C /repo worktree add -q --detach "$wt" 010b678 >>"$log" 2>&1 || { echo "$id: worktree failed"; exit 1; }
+git -C /repo worktree add -q --detach "$wt" HEAD >>"$log" 2>&1 || { echo "$id: worktree failed"; exit 1; }
 cleanup() { git -C /repo worktree remove --force "$wt" >/dev/null 2>&1; }
 trap cleanup EXIT
 cd "$wt"
@@ -47,7 +47,7 @@ notes=open(out+'/notes.md').read() if __import__('os').path.exists(out+'/notes.m
 json.dump({"property":prop,"demo_path":demo,
  "needs_to_manifest":notes[:1500],
  "confirmed":{"demo_on_original":"pass","build_with_patch":"ok","demo_with_patch":"FAIL","full_suite_with_patch":"pass (pkg/cli flakes ignored; they also flake on the original tree)"},
- "how":"tools/confirm_seed.sh in a scratch worktree of /repo at 010b678",
+ "how":"tools/confirm_seed.sh in a scratch worktree of /repo at HEAD (pinned tree + hook and fix commits)",
  "detected_by":"(filled in after running the checks)"}, open(out+'/meta.json','w'), indent=1)
 PY
   echo "$id: CONFIRMED"
